@@ -61,6 +61,20 @@ func checkPositions(res *Result, src []byte) {
 					return fmt.Sprintf("FAIL position %d outside the source (%d bytes)", p, len(src))
 				}
 			}
+			// positions and line table survive dump and load, and the loaded program reports the same locations
+			dump, derr := dumpOf(prog)
+			if derr != nil {
+				return "FAIL Dump: " + derr.Error()
+			}
+			var out2, log2 capBuf
+			prog2, lerr := bcl.LoadProg(bytes.NewReader(dump), "input", bcl.OptOutput(&out2), bcl.OptLogger(&log2))
+			if lerr != nil {
+				return "FAIL the dump of the accepted program cannot be loaded back: " + lerr.Error()
+			}
+			_, _, _, positions2, lfs2 := bcl.VerifProgParts(prog2)
+			if fmt.Sprint(positions2) != fmt.Sprint(positions) || fmt.Sprint(lfs2) != fmt.Sprint(lfs) {
+				return fmt.Sprintf("FAIL positions / line table after dump and load: %v / %v, before: %v / %v", positions2, lfs2, positions, lfs)
+			}
 			// (a damaged program that may repeat a string beyond 2^20 bytes is not executed)
 			if !domainExcluded(src) {
 				log.Reset()
@@ -69,6 +83,10 @@ func checkPositions(res *Result, src []byte) {
 					texts = append(texts, err.Error())
 				}
 				texts = append(texts, log.String())
+				_, _, errL := bcl.Execute(prog2)
+				if fmt.Sprint(errL) != fmt.Sprint(err) || log2.String() != log.String() {
+					return fmt.Sprintf("FAIL the loaded program reports %q / %v, the parsed one %q / %v", log2.String(), errL, log.String(), err)
+				}
 				// the same program executed again reports the same locations
 				first := log.String()
 				log.Reset()
@@ -161,6 +179,25 @@ func streamPositions(ctx *Ctx) *Result {
 		if i < 2 {
 			res.Sample(trunc(src, 300))
 		}
+	})
+	// the last newline, the number of newlines and the failing instruction exactly at, just below
+	// and just above every varint size boundary (these are the last bytes of a dump)
+	parallel(ctx.Pool, ctx.Seed+5, ctx.N(36), func(i int, r *rand.Rand, d *Driver) {
+		b := []int{239, 240, 241, 2286, 2287, 2288, 67822, 67823, 67824}[i%9]
+		var src string
+		switch (i / 9) % 4 {
+		case 0:
+			src = "print 1 #" + strings.Repeat("p", b-9) + "\n"
+		case 1:
+			src = "print 1 #" + strings.Repeat("p", b-9) + "\nprint nosuch"
+		case 2:
+			src = strings.Repeat("\n", b) + "print 1 / 0"
+		default:
+			src = strings.Repeat(" ", b-8) + "print 1 / 0"
+		}
+		res.Count(fmt.Sprintf("boundary.%d", b), 1)
+		checkPositions(res, []byte(src))
+		diffParseRun(res, d, []byte(src), false)
 	})
 	// runtime errors at a known token, after a varying number of constants (so that the
 	// operands of the failing instruction take one, two or three bytes): the reported
